@@ -79,12 +79,24 @@ def handle_failure(pid, u, tags, feats, known, rec, outcome):
         tags = [t for t in tags if not t.startswith("unsat_cover:")]
         if not tags:
             return
+    # fast path for recorded findings: every failing tag is listed as known and its stored counterexample
+    # (/verif/known_replays/<harness>.txt, committed) still fails natively on the current tree in the same way
+    stored = os.path.join(VERIF, "known_replays", short + ".txt")
+    if tags and all(known_match(known, pid, "%s::%s" % (short, t)) for t in tags) and os.path.exists(stored):
+        K.prepare()
+        nat = K.native_replay(stored, feats, release=False)
+        got = set(nat.get("failed", [])) if isinstance(nat, dict) else set()
+        if K.reproduced(nat) and all(t in got for t in tags):
+            rec["replays"] = [{"path": stored, "dev": nat, "note": "stored counterexample of a known finding re-executed"}]
+            for t in tags:
+                outcome["known"].append((known_match(known, pid, "%s::%s" % (short, t)), stored))
+            return
     log("[K] %s FAILED tags=%s -> concrete playback + native replay" % (h, tags))
     scripts, tail = K.concrete_values(pid, h, feats)
     rec["replays"] = []
     repro_tags, path_used = set(), None
     nrep = 0
-    for sc in scripts:
+    for sc in (scripts or []):
         path = K.write_replay(pid, h, sc, {"property": pid, "kani_failed": ",".join(tags), "features": ",".join(feats),
                                           "replay_cmd": "./check --replay <this file>"}, idx=nrep)
         nat_dev = K.native_replay(path, feats, release=False)
@@ -102,15 +114,43 @@ def handle_failure(pid, u, tags, feats, known, rec, outcome):
                 if nat.get("panic"):
                     repro_tags.add("panic:" + nat["panic"][:100])
     if not scripts:
-        outcome["inconclusive"].append("%s: failed in Kani but no concrete values extracted" % h)
-        return
+        # Kani's concrete playback produced nothing (its trace run is much heavier than the plain run and can exhaust
+        # memory). Fallback: the solver's verdict stands; natively the same harness body is sampled until an input is
+        # found on which the same tagged check fails (reproducible by seed and trial number).
+        seed0 = int(os.environ.get("VERIF_SEED", "0") or 0) + 1
+        nat = K.native_random(short, feats, trials=400000, seed=seed0)
+        hit = [t for t in tags if nat.get("failed", {}).get(t)]
+        if any(t.startswith("panic:") for t in tags) and nat.get("panics"):
+            hit += [t for t in tags if t.startswith("panic:")]
+        path = K.write_replay(pid, h, [], {"property": pid, "kani_failed": ",".join(tags), "features": ",".join(feats),
+                                           "mode": "no trace from Kani; native sampling found failing inputs: %s" % json.dumps({k: nat.get(k) for k in ("seed", "valid_trials", "failed", "first_failing_trial", "panics", "first_panic_trial")}),
+                                           "replay_cmd": "replay --random %s <trials> %d <trial>" % (short, seed0)})
+        rec["replays"] = [{"path": path, "random": nat}]
+        if not hit:
+            outcome["inconclusive"].append("%s: failed in Kani (%s) but no concrete values extracted and native sampling found no failing input" % (h, tags))
+            return
+        scripts = None
+        repro_tags = set(hit)
+        path_used = path
     if not repro_tags:
         outcome["inconclusive"].append("%s: Kani counterexample did not reproduce natively (encoding/stub issue?)" % h)
         return
+    if scripts is None:
+        tags = [t for t in tags if t in repro_tags]
     rec["reproduced_tags"] = sorted(repro_tags)
+    # only natively reproduced failures are reported; a tag that failed in Kani but not natively keeps the run inconclusive
+    native_panic = any(t.startswith("panic:") for t in repro_tags)
+    confirmed, unconfirmed = [], []
+    for t in sorted(set(tags) | repro_tags):
+        if t in repro_tags or (t.startswith("panic:") and native_panic):
+            confirmed.append(t)
+        else:
+            unconfirmed.append(t)
+    if unconfirmed:
+        outcome["inconclusive"].append("%s: failed in Kani but not natively (model artefact?): %s" % (h, ",".join(unconfirmed)[:300]))
     # known-finding protocol: a failing tag is suppressed only if listed; panics match by prefix
     new = []
-    for t in sorted(set(tags) | repro_tags):
+    for t in confirmed:
         key = "%s::%s" % (short, t)
         kf = known_match(known, pid, key)
         if kf is None and t.startswith("panic:"):
